@@ -969,7 +969,34 @@ func typeDefault(t dsl.Type, contextNamespace string, namedType string, st dsl.S
 	return "", defaultValueKindNone
 }
 
+type recordDefaultKey struct {
+	record           *dsl.RecordDefinition
+	contextNamespace string
+}
+
+type recordDefaultValue struct {
+	expression string
+	kind       defaultValueKind
+}
+
+// See the Python generator: without remembering the default of a record, a record reached along
+// many paths is recomputed once per path (exponential in the depth of the model).
+var recordDefaults = make(map[recordDefaultKey]recordDefaultValue)
+
 func typeDefinitionDefault(t dsl.TypeDefinition, contextNamespace string, st dsl.SymbolTable) (string, defaultValueKind) {
+	if rec, ok := t.(*dsl.RecordDefinition); ok {
+		key := recordDefaultKey{rec, contextNamespace}
+		if v, found := recordDefaults[key]; found {
+			return v.expression, v.kind
+		}
+		expression, kind := typeDefinitionDefaultUncached(t, contextNamespace, st)
+		recordDefaults[key] = recordDefaultValue{expression, kind}
+		return expression, kind
+	}
+	return typeDefinitionDefaultUncached(t, contextNamespace, st)
+}
+
+func typeDefinitionDefaultUncached(t dsl.TypeDefinition, contextNamespace string, st dsl.SymbolTable) (string, defaultValueKind) {
 	switch t := t.(type) {
 	case dsl.PrimitiveDefinition:
 		switch t {
